@@ -9,9 +9,9 @@ RULE = (
     "datasets with x(3) and 1-4 further dimensions of sizes 1-3 (numeric and "
     "string coordinates) whose y values encode their own coordinates; NaN "
     "patterns none / one point / one whole slice / one whole coordinate of a "
-    "mapped dimension; every injective assignment of up to 3 (quick: a "
-    "deterministic third of the 3-dimension ones; thorough + an eighth of the "
-    "4-dimension ones) dimensions to {color, hue, marker, linestyle, "
+    "mapped dimension; every injective assignment of up to 4 dimensions "
+    "(quick: all for <= 2 dimensions, every second for 3, every 24th for 4) "
+    "to {color, hue, marker, linestyle, "
     "linewidth, markersize, row, col}, fused dimensions, explicit orders, "
     "join_across_missing, aggregation with each error-range option and "
     "method, histogram mode (bins None / int / edges, density on / off), "
@@ -41,8 +41,8 @@ def assignments(k, tier):
     if k <= 2:
         return allp
     if k == 3:
-        return allp if tier == "thorough" else allp[::3]
-    return allp[::8] if tier == "thorough" else allp[::48]
+        return allp if tier == "thorough" else allp[::2]
+    return allp if tier == "thorough" else allp[::24]
 
 
 def cases(tier, seed):
